@@ -30,16 +30,16 @@ func nft3(name string, props map[string]bool, sc NftScenario, probe string) *Pkt
 // CheckC04: NFT transfers never duplicate an NFT or release escrow to the wrong claimant.
 func modelsC04(tier string) ([]*PktModel, []int) {
 	props := map[string]bool{"C04": true}
-	adv := []string{"nft/" + A + "/" + B + "/cls", "nft/" + A + "/" + C + "/cls", "nftcls", "nft/x/y"}
+	adv := []string{"nft/" + A + "/" + B + "/cls", "nft/" + A + "/" + C + "/cls", "nftcls", "nft/x/y", "nftx/" + A + "/" + B + "/cls", "nftx/" + A + "/" + C + "/cls"}
 	models := []*PktModel{
 		nft3("nft3-honest", props, NftScenario{MaxUserTx: 4, Receivers: []int{1}, BadReceiver: true}, ""),
-		nft3("nft3-adversarial-class", props, NftScenario{MaxUserTx: 4, Receivers: []int{1}, AdvClasses: adv, AdvChains: []string{B}, MaxAdv: 1}, ""),
+		nft3("nft3-adversarial-class", props, NftScenario{MaxUserTx: 4, Receivers: []int{1}, AdvClasses: adv, AdvChains: []string{B}, MaxAdv: 1, MintInto: true}, ""),
 	}
 	depth := []int{9, 8}
 	if tier == "thorough" {
 		models = []*PktModel{
 			nft3("nft3-honest", props, NftScenario{MaxUserTx: 5, Receivers: []int{1, 2}, BadReceiver: true, Relays: true, Burns: true}, ""),
-			nft3("nft3-adversarial-class", props, NftScenario{MaxUserTx: 5, Receivers: []int{1}, Relays: true, AdvClasses: adv, AdvChains: []string{B, C}, MaxAdv: 2}, ""),
+			nft3("nft3-adversarial-class", props, NftScenario{MaxUserTx: 5, Receivers: []int{1}, Relays: true, AdvClasses: adv, AdvChains: []string{B, C}, MaxAdv: 2, MintInto: true}, ""),
 		}
 		depth = []int{12, 11}
 	}
